@@ -39,7 +39,7 @@ func (w *World) Actions(rec *Rec, h Hooks) map[string]func(*rapid.T) {
 
 	actions := map[string]func(*rapid.T){
 		"append": func(t *rapid.T) {
-			s := w.PickSess(t, w.Free())
+			s := w.PickSess(t, w.Actors())
 			box := w.PickBox(t)
 			r, m := w.Append(t, s, box)
 			rec.Op("%s append %s %s -> %s", s.Name, box, m, r.Status)
@@ -65,7 +65,7 @@ func (w *World) Actions(rec *Rec, h Hooks) map[string]func(*rapid.T) {
 			on(t, s, "expunge", r)
 		},
 		"copy": func(t *rapid.T) {
-			s := w.PickSess(t, w.FreeSelected(false))
+			s := w.PickSess(t, w.ActorsSelected())
 			r, _, _ := w.Copy(t, s, false)
 			rec.Op("%s %s -> %s", s.Name, r.Cmd, r.Status)
 			on(t, s, "copy", r)
